@@ -2,6 +2,7 @@
 from ..callgraph import explore, storage_effects, message_effects, call_sites, written_value_in, site_guarded
 from ..expr import show, find, arith_args
 from ..ledger import classify
+from ..iters import nth_of, item_source, droppers, drops_only_zero, base_of, strip_coll
 from .common import entry, msg_enum, variant_env, stored, where, arm_handler
 from .hub_common import (receive_handlers, subtree, Roles, resync_fns, early_exits, HUBCFG, PARAMS, STATE, BATCH)
 from .msgs import vec_elems, wasm_execute, coin_parts
@@ -47,10 +48,10 @@ def run(prog, world, sem, rep):
         det = "STATE writes in the bond handler: %d" % len(eff)
         if ok:
             (v, bb, kind, cell, key, val, e) = eff[0]
-            wv = written_value_in(sem, vs, v, kind, cell, val)
+            wv = written_value_in(sem, vs, v, kind, cell, val, False)
             bad = []
             for fld in ("total_bond_bsei_amount", "total_bond_stsei_amount"):
-                c = classify(sem, STATE, sem.field_of(wv, fld), (fld,))
+                c = classify(sem, STATE, sem.field_of(wv, fld, False), (fld,))
                 if fld == POOL[bt]:
                     if not (c[0] == "delta" and c[1] == 1 and roles.role(c[2]) == ("payment", "amount")):
                         bad.append("%s: %s %s" % (fld, c[0], show(c[-1], 3) if c[0] != "preserved" and c[-1] is not None else ""))
@@ -76,14 +77,22 @@ def run(prog, world, sem, rep):
             an = world.norm(amt, 0, False)
             vi = val.args[0] if val.op == "field" and val.info[0] == "address" else None
             okd = False
-            if vi is not None and vi.op == "call" and vi.info == "std::ops::Index::index" and an.op == "call" and an.info == "std::ops::Index::index":
-                same_idx = vi.args[1] == an.args[1]
-                plan = an.args[0]
+            nv = nth_of(world, vi) if vi is not None else None
+            na = nth_of(world, an)
+            if nv is not None and na is not None:
+                # validator entry i and plan entry i of one walk (index loop, enumerate, or zip), in any of the repo's idioms
+                same_idx = nv[1] == na[1]
+                plan = world.norm(na[0], 0, False)
                 plan_ok = plan.op == "field" and plan.info[0] == "1" and find(plan, lambda y: y.op == "call" and y.info.endswith("common::calculate_delegations"))
-                vals_ok = sem.label(vi.args[0]) == REGQ
+                vals_ok = sem.label(nv[0]) == REGQ
                 okd = same_idx and bool(plan_ok) and vals_ok and roles.role(denom) == ("payment", "denom")
-                det = "same index: %s, amount from the plan: %s, validator from the registry answer: %s, denom role %s" % (same_idx, bool(plan_ok), vals_ok, roles.role(denom))
-                rep.ob("C02.b", "hub::%s delegates only to validators returned by the registry" % vn, vals_ok, "validator source %s" % (sem.label(vi.args[0]),), where(v.body, bb), key="C02.b | %s | source" % vn)
+                det = "same position: %s, amount from the plan: %s, validator from the registry answer: %s, denom role %s" % (same_idx, bool(plan_ok), vals_ok, roles.role(denom))
+                rep.ob("C02.b", "hub::%s delegates only to validators returned by the registry" % vn, vals_ok, "validator source %s" % (sem.label(nv[0]),), where(v.body, bb), key="C02.b | %s | source" % vn)
+                # every plan entry becomes a Delegate: no early exit from the emitting loop / no adaptor dropping non-zero entries
+                skip = no_entry_skipped(prog, world, sem, v, bb, na[1])
+                rep.ob("C02.a", "hub::%s turns every plan entry into a Delegate" % vn, skip == [],
+                       "the code emitting Delegate messages can skip plan entries (%s): the payment is booked in full but those shares are never delegated" % skip if skip
+                       else "every entry is visited", where(v.body, bb), key="C02.a | %s | no-skip" % vn)
             else:
                 det = "Delegate fields not of the form validators[i].address / plan[i]: %s" % show(world.norm(e, 0, False), 5)[:300]
         rep.ob("C02.a", "hub::%s Delegate pairs plan[i] with validators[i]" % vn, okd, det, where(h.body), key="C02.a | %s | delegate" % vn)
@@ -266,8 +275,9 @@ def run(prog, world, sem, rep):
                             continue
                         if kind in ("write", "update") and not pf.be.cfg.dominates(rb0, lbb):
                             bad.append("STATE %s at %s:%d not after the resync" % (kind, v.body.path.split("::")[-1], v.body.blocks[bb].term.line))
-                        if kind == "read":
-                            bad.append("STATE read directly at %s:%d (pricing must use the re-synchronised state)" % (v.body.path.split("::")[-1], v.body.blocks[bb].term.line))
+                        if kind == "read" and not pf.be.cfg.dominates(rb0, lbb):
+                            # (a load after the resync returns what the resync just saved: load + modify + save is the same as update)
+                            bad.append("STATE read at %s:%d before the resync (pricing must use the re-synchronised state)" % (v.body.path.split("::")[-1], v.body.blocks[bb].term.line))
         rep.ob("C02.e", "%s: resync before pricing and before every STATE write" % name, not bad, "; ".join(bad) if bad else "resync dominates all STATE writes; no raw STATE read", where(hv.body), key="C02.e | %s" % name)
 
     # ---------------------------------------------------------------- C02.g
@@ -294,102 +304,66 @@ def run(prog, world, sem, rep):
                where(hv.body), key="C02.g | %s" % name)
 
 
+def no_entry_skipped(prog, world, sem, v, bb, pos):
+    """reasons why the code at block bb of visit v (emitting one message per entry of a walk) may skip entries: early exits of the
+    enclosing loop towards a success exit (loop form) or adaptors that drop more than zero amounts (iterator form); [] if none"""
+    if v.body.kind == "closure" and pos[0] == "item":
+        src = item_source(world, pos[1])
+        out = []
+        for dr in (droppers(world, src) if src is not None else []):
+            if not (drops_only_zero(world, prog, dr, "1") or drops_only_zero(world, prog, dr)):
+                out.append("%s may drop or cut entries" % dr[0])
+        return out
+    ee = early_exits(sem, v, bb)
+    if ee is None:
+        return ["the message is not built inside a loop"]
+    return ["early exit at line %d" % l for (_, _, l) in ee]
+
+
 PLANNER = "common::calculate_undelegations"
 
 
 def undelegate_pairing(prog, world, sem, pv, site):
     """The Undelegate message built under the picker `pv` pairs planner output i with entry i of the very validator list the planner was
-    given, for every entry with a non-zero amount.  Accepted forms (the repo's idioms):
-      loop      for (i, a) in planner(..).iter().enumerate() { if a.is_zero() { continue } push(Undelegate{validators[i].address, a}) }
-      iterator  planner(..).iter().enumerate()[.filter(|(_, a)| !a.is_zero())].map(|(i, a)| Undelegate{validators[i].address, a})
-                validators.iter().zip(planner(..).iter())[.filter(|(_, a)| !a.is_zero())].map(|(v, a)| Undelegate{v.address, a})
-                consumed whole by extend / collect.
-    Returns (ok, detail, skipping reasons or early exits, delegator expression of the own-delegations query)."""
+    given, for every entry with a non-zero amount - in any of the repo's idioms (index loop, enumerate, zip; `for` loop or closure of
+    an iterator adaptor; see krpsa.iters).  Returns (ok, detail, skipping reasons, delegator expression of the own-delegations query)."""
     v, bb, e = site
     d = dict(zip(e.info[2], e.args))
     val = world.norm(d["validator"], 0, False)
     amt, denom = coin_parts(world, sem, d["amount"])
-    an = world.norm(amt, 0, False)
     c5 = sem.label(denom) == stored(PARAMS, "underlying_coin_denom")
     addr_of = val.args[0] if val.op == "field" and val.info[0] == "address" else None
-    indexed = addr_of is not None and addr_of.op == "call" and addr_of.info == "std::ops::Index::index"
-
-    def strip(x):
-        x = world.ident(x, expand_ws=False)
-        while x.op == "call" and (x.info.endswith("slice::iter") or x.info.endswith("IntoIterator::into_iter") or x.info.endswith("Clone::clone")):
-            x = world.ident(x.args[0], expand_ws=False)
-        return x
-
-    def own_query(x):
-        q = find(world.norm(x, 0, False), lambda y: y.op == "call" and y.info.endswith("query_all_delegations"))
-        return q[0] if q else None
-    planner, vlist, c2, ee, form = None, None, False, None, "?"
-    if v is pv:
-        form = "loop"
-        idx = addr_of.args[1] if indexed else None
-        c2 = indexed and idx.op == "field" and idx.info[0] == "0" and an.op == "field" and an.info[0] == "1" and idx.args[0] == an.args[0]
-        pl = find(an, lambda y: y.op == "call" and y.info.endswith(PLANNER))
-        planner = pl[0] if pl else None
-        vlist = addr_of.args[0] if indexed else None
-        ee = early_exits(sem, pv, bb)
-    elif v.body.kind == "closure" and v.parent is not None and v.parent[0] is pv:
-        form = "iterator chain"
-
-        def item(x, f):
-            return x is not None and x.op == "field" and x.info[0] == f and x.args[0].op == "param" and x.args[0].info[0] == v.body.path and x.args[0].info[1] == 2
-        ee = ["the closure building the message is not the argument of a map"]
-        for blk in pv.body.calls():
-            em = pv.be.ev_call(blk.idx, blk.term)
-            if not (em.op == "call" and em.info.endswith("Iterator::map") and len(em.args) == 2 and em.args[1].op == "closure" and em.args[1].info == v.body.path):
-                continue
-            ee = []
-            r = world.ident(em.args[0], expand_ws=False)
-            zipped = None
-            while r.op == "call":
-                nm = r.info
-                if nm.endswith("Iterator::filter") and r.args[1].op == "closure":
-                    fb = prog.bodies.get(r.args[1].info)
-                    pr = world.norm(world.ret_expr(fb), 0, False) if fb is not None else None
-                    okf = pr is not None and pr.op == "un" and pr.info == "Not" and pr.args[0].op == "call" and pr.args[0].info.endswith("::is_zero") and \
-                        (lambda a0: a0.op == "field" and a0.info[0] == "1" and a0.args[0].op == "param" and a0.args[0].info[1] == 2)(world.ident(pr.args[0].args[0], expand_ws=False))
-                    if not okf:
-                        ee.append("filter drops entries other than zero amounts")
-                    r = world.ident(r.args[0], expand_ws=False)
-                elif nm.endswith("Iterator::enumerate") or nm.endswith("slice::iter") or nm.endswith("IntoIterator::into_iter"):
-                    r = world.ident(r.args[0], expand_ws=False)
-                elif nm.endswith("Iterator::zip") and zipped is None:
-                    zipped = (strip(r.args[0]), strip(r.args[1]))
-                    break
-                else:
-                    break
-            if zipped is not None:
-                # |(validator, amount)|: validator entry i and planner output i
-                c2 = addr_of is not None and item(addr_of, "0") and item(an, "1")
-                pl = find(world.norm(zipped[1], 0, False), lambda y: y.op == "call" and y.info.endswith(PLANNER))
-                planner = pl[0] if pl else None
-                vlist = pv.resolve(zipped[0])
-            else:
-                c2 = indexed and item(addr_of.args[1], "0") and item(an, "1")
-                pl = find(world.norm(r, 0, False), lambda y: y.op == "call" and y.info.endswith(PLANNER))
-                planner = pl[0] if pl else None
-                vlist = addr_of.args[0] if indexed else None
-                if r.op == "call" and not r.info.endswith(PLANNER):
-                    ee.append("unrecognised iterator adaptor %s (may skip or stop early)" % r.info)
-            cons = [1 for b2 in pv.body.calls() for e2 in [pv.be.ev_call(b2.idx, b2.term)]
-                    if any(a0 == em for a0 in e2.args) and (str(e2.info).endswith("Extend::extend") or str(e2.info).endswith("Iterator::collect")
-                                                            or (isinstance(e2.info, tuple) and str(e2.info[0]).endswith("Extend::extend")))]
-            if not cons:
-                ee.append("mapped iterator is not consumed by extend / collect")
+    nv = nth_of(world, addr_of) if addr_of is not None else None
+    na = nth_of(world, world.norm(amt, 0, False))
+    if nv is None or na is None:
+        return False, "Undelegate fields are not entry i of a validator list / entry i of the planner output: %s" % show(world.norm(e, 0, False), 4)[:300], \
+            ["unrecognised construction"], None
+    c2 = nv[1] == na[1]
+    pl = find(world.norm(na[0], 0, False), lambda y: y.op == "call" and y.info.endswith(PLANNER))
+    planner = pl[0] if pl else None
     # the planner distributes the claim handed to the picker (its parameter, here in the entry point's terms) ...
     c3 = planner is not None and any(a is not None and world.norm(pv.resolve(planner.args[0]), 0, False) == world.norm(a, 0, False) for a in (pv.args or []))
     # ... over the very list whose entries receive the amounts, which is the hub's own delegation list
-    c6 = planner is not None and vlist is not None and world.norm(strip(pv.resolve(planner.args[1])), 0, False) == world.norm(strip(vlist), 0, False)
-    q = own_query(vlist) if vlist is not None else None
-    c4 = q is not None
+    c6 = planner is not None and world.norm(strip_coll(world, pv.resolve(planner.args[1])), 0, False) == world.norm(strip_coll(world, nv[0]), 0, False)
+    q = find(world.norm(nv[0], 0, False), lambda y: y.op == "call" and y.info.endswith("query_all_delegations"))
+    c4 = bool(q)
+    ee = no_entry_skipped(prog, world, sem, v, bb, na[1])
+    if v.body.kind == "closure":
+        # the mapped iterator must be consumed whole (extend / collect), not e.g. taken from
+        par = v.parent[0] if v.parent else None
+        cons = False
+        if par is not None:
+            for b2 in par.body.calls():
+                e2 = par.be.ev_call(b2.idx, b2.term)
+                nm = str(e2.info[0] if isinstance(e2.info, tuple) else e2.info).rsplit("::", 1)[-1]
+                if nm in ("extend", "collect") and any(find(a0, lambda y: y.op == "closure" and y.info == v.body.path) for a0 in e2.args):
+                    cons = True
+        if not cons:
+            ee = ee + ["the mapped iterator is not consumed by extend / collect"]
     ok = c2 and c3 and c4 and c5 and c6
-    det = "%s form; amount i paired with validator i: %s, planner(claim param): %s, same list planned and indexed: %s, list from own delegations: %s, staking denom: %s" % (
-        form, c2, c3, c6, c4, c5)
-    return ok, det, ee, (q.args[1] if q is not None else None)
+    det = "amount i paired with validator i: %s, planner(claim param): %s, same list planned and indexed: %s, list from own delegations: %s, staking denom: %s" % (
+        c2, c3, c6, c4, c5)
+    return ok, det, ee, (q[0].args[1] if q else None)
 
 
 def _ancestors(v):
